@@ -7,6 +7,6 @@ id="$1"
 bak=$(mktemp)
 [ -f /verif/evidence/$id.json ] && cp /verif/evidence/$id.json "$bak"
 git -C /repo apply "$p" || exit 2
-trap 'git -C /repo checkout -- . ; git -C /repo clean -fdq; [ -s "$bak" ] && cp "$bak" /verif/evidence/$id.json; rm -f "$bak"' EXIT
+trap 'git -C /repo checkout -- . ; git -C /repo clean -fdq; [ -s "$bak" ] && cp "$bak" /verif/evidence/$id.json; rm -f "$bak"; /verif/tools/regen.sh >/dev/null 2>&1' EXIT
 cd /verif && ./check "$@"
 echo "exit=$?"
